@@ -512,7 +512,14 @@ func (s *Sim) loop(main func()) {
 		s.freeSalt = mix64(s.Tape.Seed)
 		go func() {
 			defer func() {
-				s.recoverFree("main")
+				// (recover works only when called by the deferred function itself)
+				if r := recover(); r != nil {
+					buf := make([]byte, 8192)
+					n := runtime.Stack(buf, false)
+					s.panicMu.Lock()
+					s.Panics = append(s.Panics, fmt.Sprintf("panic in goroutine (main): %v\n%s", r, buf[:n]))
+					s.panicMu.Unlock()
+				}
 				s.mu.Lock()
 				s.mainDone = true
 				s.mu.Unlock()
